@@ -117,6 +117,14 @@ def RLock():
     return _RLock()
 
 
+class _Token:
+    """Wait token compared by identity (a list would compare by value and remove a peer's token)."""
+    __slots__ = ("flag",)
+
+    def __init__(self):
+        self.flag = False
+
+
 class Condition:
     def __init__(self, lock=None):
         if lock is None:
@@ -142,12 +150,12 @@ class Condition:
         if s is None:
             _degraded_block(timeout, "Condition.wait")
             return False
-        token = [False]
+        token = _Token()
         self._waiters.append(token)
         st = self._lock._release_save()
         notified = False
         try:
-            notified = s.block(lambda: token[0], timeout, why="cond.wait")
+            notified = s.block(lambda: token.flag, timeout, why="cond.wait")
         finally:
             if not notified:
                 try:
@@ -182,7 +190,7 @@ class Condition:
 
     def notify(self, n=1):
         for token in self._waiters[:n]:
-            token[0] = True
+            token.flag = True
         del self._waiters[:n]
         s = _sched()
         if s is not None:
